@@ -30,6 +30,15 @@ ASSUMPTIONS = [
     "variance swap on a single time point (T=1) has no returns: out of domain",
     "row subsample (<= 12 paths incl. first/last and all paths tying with the strike) for large calls",
 ]
+ANCHORS = ['pfhedge.nn.functional:european_payoff',
+           'pfhedge.nn.functional:lookback_payoff',
+           'pfhedge.nn.functional:american_binary_payoff',
+           'pfhedge.nn.functional:european_binary_payoff',
+           'pfhedge.nn.functional:european_forward_start_payoff',
+           'pfhedge.nn.functional:realized_variance',
+           'pfhedge.instruments.derivative.base:BaseDerivative.payoff',
+           'pfhedge.instruments.derivative.cliquet:EuropeanForwardStartOption._start_index']
+PYTEST_WORKLOAD = True  # thorough tier also runs /repo/tests with these passive monitors attached (DESIGN.md 2.7)
 DECIDING = ["payoff.european", "payoff.lookback", "payoff.american_binary", "payoff.european_binary",
             "payoff.forward_start", "payoff.realized_variance", "derivative.payoff_fn", "clauses.order", "relations"]
 REQUIRED_BRANCHES = ["tie_with_strike", "call", "put", "T=1", "T=2"]
